@@ -178,14 +178,14 @@ PROPS["C08"] = {
 PROPS["C06"] = {
     "confirm_reruns": True,
     "id": "C06",
-    "lean_modules": ["JT.Props.C06"],
-    "extractors": ["replytable", "concshape"],
+    "lean_modules": ["JT.Props.C06", "JT.Props.C06Src"],
+    "extractors": ["replytable", "concshape", "golean"],
     "functional_ops": ["convcut", "convpar"],
     "rule": ("conversations of 1..6 writes x 1..3 frames on one connection against a real in-process server (default configuration) over a localhost socket: every 0x0xxx/0x1xxx id registered by default plus unsupported ids, both header versions, "
              "random phones and request serials (0, 65535, 7d/7e...), 0x0102 with matching / non-matching / NUL-terminated / 240..255-byte codes and too-short 2019 bodies, 0x0801 with bodies below and above 36 bytes, 0x1211/0x1212 well- and malformed, "
              "interleaved sub-packaged messages (packet 1 first, duplicates); the harness waits for the prescribed number of replies after each write so that read boundaries are deterministic; one long conversation of 1200 heartbeats (thorough: 66000, beyond the serial wrap). "
              "non-trivial = conversation with at least one reply."),
-    "technique": "Lean 4 proofs: reply logic (table regenerated from the running code, C01 round trip for the frame) + inductive invariants of a reader/channel/writer transition system over all interleavings; socket-level differential correspondence + reply oracle",
+    "technique": "reply bodies of the general, registration and authentication responses proved byte for byte about BaseHandle/T0x0100/T0x0102.ReplyBody as TRANSLATED from the Go source on every run (C06Src) + Lean 4 proofs: reply logic (table regenerated from the running code, C01 round trip for the frame) + inductive invariants of a reader/channel/writer transition system over all interleavings; socket-level differential correspondence + reply oracle",
     "level_text": ("Machine-checked Lean 4 theorems: the id -> (answered?, reply id) table obtained from the running handlers equals the standard's; no reply and no serial for unregistered ids, responses and incomplete sub-packages; exactly one reply otherwise, "
                    "whose frame decodes (C01 round trip) to the reply id, the sender's BCD phone and version, the platform serial and the body; general / registration / authentication (result 1 exactly when the code differs; short 2019 bodies unanswered) / multimedia bodies; "
                    "replies in arrival order; the k-th frame carries serial (s+k) mod 65536 for every k. For the goroutine structure a transition system reader -> bounded FIFO -> writer is proved, for ALL interleavings, to report each message to the read callbacks once, before its reply, "
